@@ -100,10 +100,14 @@ Inductive case :=
      unsupported, k+1], decoded), media type named by the error message, status *)
 | QC (idx hdr : N) (ol : list N) (code o_ct o_status : N)
   (* RequestEncoder: header before, header after *)
-| EC (idx preset o_hdr : N).
+| EC (idx preset o_hdr : N)
+  (* mime.ParseMediaType(s) of the real Go library: code 0 = err == nil with media type m;
+     1 = an error returned together with the (non-empty) media type m (invalid parameter);
+     2 = an error with an empty media type *)
+| PC (idx s code m : N).
 
 Definition case_idx (c : case) : N :=
-  match c with RC i _ _ _ _ _ _ _ _ _ => i | QC i _ _ _ _ _ => i | EC i _ _ => i end.
+  match c with RC i _ _ _ _ _ _ _ _ _ => i | QC i _ _ _ _ _ => i | EC i _ _ => i | PC i _ _ _ => i end.
 
 Definition other_name : bytes := [111; 116; 104; 101; 114].
 
@@ -164,6 +168,19 @@ Definition case_ok (t : table) (c : case) : bool :=
   | EC _ p o =>
     match str t p, str t o with
     | Some p, Some o => beq (request_encoder_header p) o
+    | _, _ => false
+    end
+  | PC _ s code m =>
+    (* the modelled media type part against the real parser: accepted values and values
+       refused only for their parameters must yield exactly the observed media type; a value
+       refused with an empty media type is either refused by the model too or has parameters
+       (duplicate names and RFC 2231 errors are the parameter oracle's) *)
+    match str t s, str t m with
+    | Some s, Some m =>
+      match go_media_type (before_semi s) with
+      | Some m' => if N.eqb code 2 then contains_semicolon s else beq m' m
+      | None => N.eqb code 2
+      end
     | _, _ => false
     end
   end.
